@@ -18,6 +18,63 @@ func rulesC14(w *World, o *Out) {
 	o.Rule("C14.R2", "a validator enters the scoring table only with both a metrics record and a fee record; the job filter accepts a validator only through its account on the requested chain, and under an MEV requirement only if that same account carries the MEV trait")
 	o.Rule("C14.R3", "an evm message is offered for relay only if all five relay filters hold; the stateful oldest-per-sender filter is evaluated before the gas-estimate and assignee filters, so an older message that is not yet relayable still blocks younger ones of its sender")
 	o.Rule("C14.R4", "each fee is the ceiling of multiplier × base (estimate for the relayer fee, relayer fee for community / security fees)")
+	o.Rule("C14.R5", "a message never keeps an elected estimate without its fees: each message's estimate processing runs on its own cache context, created for that message and committed only when its processing returned no error")
+	if cp := w.MustFunc(o, "x/consensus/keeper", "Keeper", "CheckAndProcessEstimatedMessages"); cp != nil {
+		o.Analysed(w.FuncKey(cp))
+		proc := FindCalls(cp, false, isCallee("x/consensus/keeper", "Keeper", "checkAndProcessEstimatedMessage"))
+		o.Count("C14.R5 per-message processing sites", len(proc), 1)
+		var caches []Site
+		for _, f := range unitFuncs(cp) {
+			for _, c := range CallsIn(f) {
+				if c.Callee.Name == "CacheContext" {
+					caches = append(caches, c)
+				}
+			}
+		}
+		for _, ps := range proc {
+			pos := w.Pos(ps.Instr.Pos())
+			// the context handed to the processing is the branch created for this message
+			onCache := false
+			var cacheCall *ssa.Call
+			if len(ps.Args()) > 1 {
+				if ex, isEx := canon(ps.Args()[1]).(*ssa.Extract); isEx && ex.Index == 0 {
+					if cc, isC := ex.Tuple.(*ssa.Call); isC {
+						if cal, okc := CalleeOf(cc.Common()); okc && cal.Name == "CacheContext" {
+							onCache, cacheCall = true, cc
+						}
+					}
+				}
+			}
+			o.Check("C14.R5", "CheckAndProcessEstimatedMessages|processing runs on a cache context", onCache, pos, "checkAndProcessEstimatedMessage persists the elected estimate before it computes the fees; it must run on a CacheContext branch")
+			if cacheCall == nil {
+				continue
+			}
+			// a fresh branch per message: the next processing is not reached without branching again
+			fresh := ReachAvoiding(cp, ps.Instr, map[ssa.Instruction]bool{ps.Instr: true}, siteSet(caches)) == nil
+			o.Check("C14.R5", "CheckAndProcessEstimatedMessages|one cache context per message", fresh, pos, "a branch shared by several messages commits the partial writes (elected estimate without fees) of a message whose processing failed")
+			// commit of that branch only under err == nil of this processing
+			okCommit, nCommit := true, 0
+			for _, r := range *cacheCall.Referrers() {
+				ex, isEx := r.(*ssa.Extract)
+				if !isEx || ex.Index != 1 {
+					continue
+				}
+				for _, u := range *ex.Referrers() {
+					c, isC := u.(*ssa.Call)
+					if !isC || c.Call.Value != ssa.Value(ex) {
+						okCommit = false // the commit function escapes (stored, deferred, passed on)
+						continue
+					}
+					nCommit++
+					g := GuardErrNil(c, func(cc Callee) bool { return cc.Static == ps.Callee.Static })
+					if g == nil || ssa.Instruction(g) != ps.Instr {
+						okCommit = false
+					}
+				}
+			}
+			o.Check("C14.R5", "CheckAndProcessEstimatedMessages|committed only when the message was processed without error", okCommit && nCommit > 0, pos, "commit() must be dominated by err == nil of this message's checkAndProcessEstimatedMessage")
+		}
+	}
 
 	pickK := w.MustFunc(o, "x/evm/keeper", "Keeper", "PickValidatorForMessage")
 	isPick := func(c Callee) bool { return c.Name == "PickValidatorForMessage" && (c.Static == pickK || c.Iface) }
